@@ -1,8 +1,9 @@
 /-
-The byte-wise loops trim / toLower / toUpper.  Their refinement is not proved yet: `Safe` excludes them
-(`LoopsProved` is false), so the statements below hold vacuously and `step_sim` stays total over `Op`.
+The byte-wise loops: toLower / toUpper (a copy-on-write check per changed byte) and trim (whose `toRemove`
+argument may be the trimmed object itself and is re-read in every round).
 -/
 import SquidModel.SBuf.Sim2
+set_option linter.unusedSimpArgs false
 set_option linter.unusedVariables false
 
 namespace SquidModel.SBuf
@@ -10,16 +11,477 @@ open Heap
 
 variable {c : Cfg} {h : Heap}
 
-theorem stepOk_trim (hc : AllocOk c) (hI : Inv h) (i j : Nat) (ab ae : Bool) (hi : i < h.views.length) (hj : j < h.views.length)
-    (hs : Safe (abs h) (.trim i j ab ae)) : StepOk c h (.trim i j ab ae) :=
-  absurd hs (by simp [Safe, LoopsProved])
+theorem Sets.trans (a : Sets h h1 i x) (b : Sets h1 h2 i y) : Sets h h2 i y :=
+  ⟨b.inv, by rw [b.nviews, a.nviews], by rw [b.abs, a.abs, List.set_set]⟩
+
+theorem Sets.self (hI : Inv h) (i : Nat) (hi : i < h.views.length) : Sets h h i (bytesOf h (h.view i)) :=
+  ⟨hI, rfl, (abs_set_self h i hi).symm⟩
+
+/-- `(*this)[k]` for k < length() -/
+theorem readByte_view (hI : Inv h) (i : Nat) (hi : i < h.views.length) (k : Nat) (hk : k < (h.view i).len) :
+    readByte h (h.view i).blob ((h.view i).off + k) = (bytesOf h (h.view i))[k]? := by
+  have hv := hI.view i hi
+  unfold readByte bytesOf
+  rw [if_pos (by omega), List.getElem?_take, if_pos hk, List.getElem?_drop]
+
+/-- what a Sets-step leaves in object i -/
+theorem Sets.bytes (s : Sets h h' i x) (hi : i < h.views.length) : bytesOf h' (h'.view i) = x := by
+  have hi' : i < h'.views.length := by rw [s.nviews]; exact hi
+  have e1 := get_abs h' i hi'
+  rw [← e1, s.abs]
+  simp [Spec.get, List.getD_eq_getElem?_getD, abs_length, hi]
+
+theorem caseLoop_spec (hc : AllocOk c) (pred : UInt8 → Bool) (conv : UInt8 → UInt8) (i : Nat) :
+    ∀ (fuel : Nat) (h : Heap) (k : Nat), Inv h → i < h.views.length → k ≤ (h.view i).len → (h.view i).len - k ≤ fuel →
+      ∃ h', caseLoop c pred conv h i k fuel = .ok h' ∧
+        Sets h h' i ((bytesOf h (h.view i)).take k ++ ((bytesOf h (h.view i)).drop k).map (fun ch => if pred ch then conv ch else ch)) := by
+  intro fuel
+  induction fuel with
+  | zero =>
+    intro h k hI hi hk hf
+    have hlen := bytesOf_length hI _ (view_mem h i hi)
+    have hkl : k = (bytesOf h (h.view i)).length := by omega
+    refine ⟨h, rfl, ?_⟩
+    rw [hkl, List.take_length, List.drop_length, List.map_nil, List.append_nil]
+    exact Sets.self hI i hi
+  | succ fuel ih =>
+    intro h k hI hi hk hf
+    have hlen := bytesOf_length hI _ (view_mem h i hi)
+    show ∃ h', (if ¬ k < (h.view i).len then Out.ok h else
+        match readByte h (h.view i).blob ((h.view i).off + k) with
+        | none => Out.ub
+        | some ch => if pred ch then (setAt c h i k (conv ch)) >>= fun h1 => caseLoop c pred conv h1 i (k + 1) fuel
+                     else caseLoop c pred conv h i (k + 1) fuel) = .ok h' ∧ _
+    by_cases hlt : k < (h.view i).len
+    · rw [if_neg (by omega)]
+      have hka : k < (bytesOf h (h.view i)).length := by rw [hlen]; exact hlt
+      rw [readByte_view hI i hi k hlt, List.getElem?_eq_getElem hka]
+      simp only []
+      have hdrop := List.drop_eq_getElem_cons hka
+      have htake : (bytesOf h (h.view i)).take (k + 1) = (bytesOf h (h.view i)).take k ++ [(bytesOf h (h.view i))[k]] := by
+        rw [List.take_add_one, List.getElem?_eq_getElem hka]; rfl
+      by_cases hp : pred (bytesOf h (h.view i))[k] = true
+      · rw [if_pos hp]
+        obtain ⟨h1, h1eq, h1s⟩ := setAt_ok hc hI i hi k (conv (bytesOf h (h.view i))[k]) hlt
+        rw [h1eq, Out.ok_bind]
+        have hb1 := h1s.bytes hi
+        have hi1 : i < h1.views.length := by rw [h1s.nviews]; exact hi
+        have hlen1 : (h1.view i).len = (h.view i).len := by
+          have := bytesOf_length h1s.inv _ (view_mem h1 i hi1)
+          rw [hb1, List.length_set, hlen] at this; exact this.symm
+        obtain ⟨h', heq, hs'⟩ := ih h1 (k + 1) h1s.inv hi1 (by rw [hlen1]; omega) (by rw [hlen1]; omega)
+        refine ⟨h', heq, ?_⟩
+        have := h1s.trans hs'
+        rw [hb1] at this
+        have e1 : ((bytesOf h (h.view i)).set k (conv (bytesOf h (h.view i))[k])).take (k + 1)
+            = (bytesOf h (h.view i)).take k ++ [conv (bytesOf h (h.view i))[k]] := by
+          rw [List.take_add_one, List.take_set_of_le (Nat.le_refl k), List.getElem?_set_self hka]; rfl
+        have e2 : ((bytesOf h (h.view i)).set k (conv (bytesOf h (h.view i))[k])).drop (k + 1) = (bytesOf h (h.view i)).drop (k + 1) :=
+          List.drop_set_of_lt (Nat.lt_succ_self k)
+        rw [e1, e2] at this
+        rw [hdrop, List.map_cons, if_pos hp]
+        rw [List.append_assoc] at this
+        exact this
+      · rw [if_neg hp]
+        obtain ⟨h', heq, hs'⟩ := ih h (k + 1) hI hi (by omega) (by omega)
+        refine ⟨h', heq, ?_⟩
+        rw [htake, List.append_assoc] at hs'
+        rw [hdrop, List.map_cons, if_neg hp]
+        exact hs'
+    · rw [if_pos hlt]
+      have hkl : k = (bytesOf h (h.view i)).length := by omega
+      refine ⟨h, rfl, ?_⟩
+      rw [hkl, List.take_length, List.drop_length, List.map_nil, List.append_nil]
+      exact Sets.self hI i hi
+
+theorem lower_fun : (fun ch => if isUpper ch = true then toLowerByte ch else ch) = toLowerByte := by
+  funext ch; unfold toLowerByte; by_cases e : isUpper ch = true <;> simp [e]
+
+theorem upper_fun : (fun ch => if isLower ch = true then toUpperByte ch else ch) = toUpperByte := by
+  funext ch; unfold toUpperByte; by_cases e : isLower ch = true <;> simp [e]
 
 theorem stepOk_toLower (hc : AllocOk c) (hI : Inv h) (i : Nat) (hi : i < h.views.length)
-    (hs : Safe (abs h) (.toLower i)) : StepOk c h (.toLower i) :=
-  absurd hs (by simp [Safe, LoopsProved])
+    (hs : Safe (abs h) (.toLower i)) : StepOk c h (.toLower i) := by
+  obtain ⟨h', heq, hsets⟩ := caseLoop_spec hc isUpper toLowerByte i (h.view i).len h 0 hI hi (Nat.zero_le _) (by omega)
+  rw [List.take_zero, List.nil_append, List.drop_zero, lower_fun] at hsets
+  exact sets_to_step hsets (by show (abs h).set i ((Spec.get (abs h) i).map toLowerByte) = _; rw [get_abs h i hi]) rfl
+    (by show unitOut (toLower c h i) = _; unfold toLower; rw [heq]; rfl)
 
 theorem stepOk_toUpper (hc : AllocOk c) (hI : Inv h) (i : Nat) (hi : i < h.views.length)
-    (hs : Safe (abs h) (.toUpper i)) : StepOk c h (.toUpper i) :=
-  absurd hs (by simp [Safe, LoopsProved])
+    (hs : Safe (abs h) (.toUpper i)) : StepOk c h (.toUpper i) := by
+  obtain ⟨h', heq, hsets⟩ := caseLoop_spec hc isLower toUpperByte i (h.view i).len h 0 hI hi (Nat.zero_le _) (by omega)
+  rw [List.take_zero, List.nil_append, List.drop_zero, upper_fun] at hsets
+  exact sets_to_step hsets (by show (abs h).set i ((Spec.get (abs h) i).map toUpperByte) = _; rw [get_abs h i hi]) rfl
+    (by show unitOut (toUpper c h i) = _; unfold toUpper; rw [heq]; rfl)
+
+/-! ### trim -/
+
+theorem trimEnd_snoc (a S : Bytes) (x : UInt8) :
+    Spec.trimEnd (a ++ [x]) S = if S.contains x then Spec.trimEnd a S else a ++ [x] := by
+  unfold Spec.trimEnd
+  rw [List.reverse_append, List.reverse_singleton, List.singleton_append]
+  by_cases e : S.contains x = true
+  · have : (x :: a.reverse).dropWhile (fun ch => S.contains ch) = a.reverse.dropWhile (fun ch => S.contains ch) := by
+      rw [List.dropWhile_cons]; exact if_pos e
+    rw [this, if_pos e]
+  · have : (x :: a.reverse).dropWhile (fun ch => S.contains ch) = x :: a.reverse := by
+      rw [List.dropWhile_cons]; exact if_neg e
+    rw [this, if_neg e, List.reverse_cons, List.reverse_reverse]
+
+theorem trimBegin_cons (a S : Bytes) (x : UInt8) :
+    Spec.trimBegin (x :: a) S = if S.contains x then Spec.trimBegin a S else x :: a := by
+  unfold Spec.trimBegin
+  rw [List.dropWhile_cons]
+
+theorem dropWhile_all {α : Type} (p : α → Bool) (l : List α) (hp : ∀ x ∈ l, p x = true) : l.dropWhile p = [] := by
+  induction l with
+  | nil => rfl
+  | cons x t ih =>
+    rw [List.dropWhile_cons, if_pos (hp x (List.mem_cons_self ..))]
+    exact ih (fun y hy => hp y (List.mem_cons_of_mem _ hy))
+
+theorem trimEnd_self (a : Bytes) : Spec.trimEnd a a = [] := by
+  unfold Spec.trimEnd
+  rw [dropWhile_all _ _ (fun x hx => by simp at hx; simp [hx])]; rfl
+
+theorem trimBegin_self (a : Bytes) : Spec.trimBegin a a = [] := by
+  unfold Spec.trimBegin
+  exact dropWhile_all _ _ (fun x hx => by simp [hx])
+
+/-- dropping the last byte of object `i` -/
+theorem shorten_spec (hI : Inv h) (i : Nat) (hi : i < h.views.length) (hpos : 0 < (h.view i).len) :
+    Sets h (h.setView i { h.view i with len := (h.view i).len - 1 }) i ((bytesOf h (h.view i)).take ((h.view i).len - 1)) := by
+  have hv := hI.view i hi
+  refine ⟨hI.setView_sameBlob i hi _ rfl (by show (h.view i).off + ((h.view i).len - 1) ≤ (h.blob (h.view i).blob).size; omega), by simp, ?_⟩
+  rw [abs_setView]
+  congr 1
+  show List.take ((h.view i).len - 1) (List.drop (h.view i).off (h.blob (h.view i).blob).data) = _
+  unfold bytesOf
+  rw [List.take_take]
+  have : min ((h.view i).len - 1) (h.view i).len = (h.view i).len - 1 := by omega
+  rw [this]
+
+/-- dropping the first byte of object `i` -/
+theorem behead_spec (hI : Inv h) (i : Nat) (hi : i < h.views.length) (hpos : 0 < (h.view i).len) :
+    Sets h (h.setView i { h.view i with off := (h.view i).off + 1, len := (h.view i).len - 1 }) i ((bytesOf h (h.view i)).drop 1) := by
+  have hv := hI.view i hi
+  refine ⟨hI.setView_sameBlob i hi _ rfl (by show (h.view i).off + 1 + ((h.view i).len - 1) ≤ (h.blob (h.view i).blob).size; omega), by simp, ?_⟩
+  rw [abs_setView]
+  congr 1
+  show List.take ((h.view i).len - 1) (List.drop ((h.view i).off + 1) (h.blob (h.view i).blob).data) = _
+  unfold bytesOf
+  rw [List.drop_take, List.drop_drop]
+
+theorem last_split (a : Bytes) (hpos : 0 < a.length) :
+    a = a.take (a.length - 1) ++ [a[a.length - 1]'(by omega)] := by
+  have h1 : a.length - 1 < a.length := by omega
+  have := @List.take_add_one _ a (a.length - 1)
+  rw [List.getElem?_eq_getElem h1] at this
+  have h2 : a.length - 1 + 1 = a.length := by omega
+  rw [h2, List.take_length] at this
+  exact this
+
+theorem nil_of_len0 (hI : Inv h) (i : Nat) (hi : i < h.views.length) (h0 : (h.view i).len = 0) : bytesOf h (h.view i) = [] :=
+  List.eq_nil_of_length_eq_zero (by rw [bytesOf_length hI _ (view_mem h i hi)]; exact h0)
+
+theorem trimEnd_last (a S : Bytes) (hpos : 0 < a.length) :
+    Spec.trimEnd a S = if S.contains (a[a.length - 1]'(by omega)) then Spec.trimEnd (a.take (a.length - 1)) S else a := by
+  have hs := last_split a hpos
+  have : Spec.trimEnd a S = Spec.trimEnd (a.take (a.length - 1) ++ [a[a.length - 1]'(by omega)]) S := by
+    conv => lhs; arg 1; rw [hs]
+  rw [this, trimEnd_snoc]
+  by_cases e : S.contains (a[a.length - 1]'(by omega)) = true
+  · rw [if_pos e, if_pos e]
+  · rw [if_neg e, if_neg e]; exact hs.symm
+
+theorem trimBegin_first (a S : Bytes) (hpos : 0 < a.length) :
+    Spec.trimBegin a S = if S.contains (a[0]'hpos) then Spec.trimBegin (a.drop 1) S else a := by
+  cases a with
+  | nil => simp at hpos
+  | cons x t => exact trimBegin_cons t S x
+
+theorem trimEndLoop_unfold (h : Heap) (i j fuel : Nat) :
+    trimEndLoop h i j (fuel + 1) =
+      if (h.view i).len = 0 then .ok h
+      else match readByte h (h.view i).blob ((h.view i).off + (h.view i).len - 1), h.contents j with
+        | some ch, some set =>
+          if set.contains ch then trimEndLoop (h.setView i { h.view i with len := (h.view i).len - 1 }) i j fuel
+          else .ok h
+        | _, _ => .ub := rfl
+
+theorem trimBeginLoop_unfold (h : Heap) (i j fuel : Nat) :
+    trimBeginLoop h i j (fuel + 1) =
+      if (h.view i).len = 0 then .ok h
+      else match readByte h (h.view i).blob (h.view i).off, h.contents j with
+        | some ch, some set =>
+          if set.contains ch then trimBeginLoop (h.setView i { h.view i with off := (h.view i).off + 1, len := (h.view i).len - 1 }) i j fuel
+          else .ok h
+        | _, _ => .ub := rfl
+
+/-- reading the last / first byte of a non-empty object -/
+theorem read_last (hI : Inv h) (i : Nat) (hi : i < h.views.length) (hpos : 0 < (h.view i).len) :
+    readByte h (h.view i).blob ((h.view i).off + (h.view i).len - 1) =
+      some ((bytesOf h (h.view i))[(bytesOf h (h.view i)).length - 1]'(by rw [bytesOf_length hI _ (view_mem h i hi)]; omega)) := by
+  have hlen := bytesOf_length hI _ (view_mem h i hi)
+  have e : (h.view i).off + (h.view i).len - 1 = (h.view i).off + ((h.view i).len - 1) := by omega
+  rw [e, readByte_view hI i hi _ (by omega), List.getElem?_eq_getElem (by rw [hlen]; omega)]
+  simp only [hlen]
+
+theorem read_first (hI : Inv h) (i : Nat) (hi : i < h.views.length) (hpos : 0 < (h.view i).len) :
+    readByte h (h.view i).blob (h.view i).off =
+      some ((bytesOf h (h.view i))[0]'(by rw [bytesOf_length hI _ (view_mem h i hi)]; omega)) := by
+  have hlen := bytesOf_length hI _ (view_mem h i hi)
+  have := readByte_view hI i hi 0 hpos
+  rw [Nat.add_zero] at this
+  rw [this, List.getElem?_eq_getElem (by rw [hlen]; omega)]
+
+theorem trimEndLoop_other (i j : Nat) (hij : i ≠ j) :
+    ∀ (fuel : Nat) (h : Heap), Inv h → i < h.views.length → j < h.views.length → (h.view i).len ≤ fuel →
+      ∃ h', trimEndLoop h i j fuel = .ok h' ∧
+        Sets h h' i (Spec.trimEnd (bytesOf h (h.view i)) (bytesOf h (h.view j))) ∧
+        bytesOf h' (h'.view j) = bytesOf h (h.view j) := by
+  intro fuel
+  induction fuel with
+  | zero =>
+    intro h hI hi hj hf
+    refine ⟨h, rfl, ?_, rfl⟩
+    rw [nil_of_len0 hI i hi (by omega)]
+    have := Sets.self hI i hi
+    rw [nil_of_len0 hI i hi (by omega)] at this
+    exact this
+  | succ fuel ih =>
+    intro h hI hi hj hf
+    rw [trimEndLoop_unfold]
+    by_cases h0 : (h.view i).len = 0
+    · rw [if_pos h0]
+      refine ⟨h, rfl, ?_, rfl⟩
+      rw [nil_of_len0 hI i hi h0]
+      have := Sets.self hI i hi
+      rw [nil_of_len0 hI i hi h0] at this
+      exact this
+    · rw [if_neg h0, read_last hI i hi (by omega), hI.contents j hj]
+      simp only []
+      have hlen := bytesOf_length hI _ (view_mem h i hi)
+      have hsplit := last_split (bytesOf h (h.view i)) (by rw [hlen]; omega)
+      by_cases hc : (bytesOf h (h.view j)).contains ((bytesOf h (h.view i))[(bytesOf h (h.view i)).length - 1]'(by rw [hlen]; omega)) = true
+      · rw [if_pos hc]
+        have hsh := shorten_spec hI i hi (by omega)
+        have hi1 : i < (h.setView i { h.view i with len := (h.view i).len - 1 }).views.length := by simpa using hi
+        have hj1 : j < (h.setView i { h.view i with len := (h.view i).len - 1 }).views.length := by simpa using hj
+        have hvj : (h.setView i { h.view i with len := (h.view i).len - 1 }).view j = h.view j := Heap.view_setView_ne _ _ _ _ hij
+        have hvi : (h.setView i { h.view i with len := (h.view i).len - 1 }).view i = { h.view i with len := (h.view i).len - 1 } :=
+          Heap.view_setView_same _ _ _ hi
+        obtain ⟨h', heq, hs', hb'⟩ := ih _ hsh.inv hi1 hj1 (by rw [hvi]; show (h.view i).len - 1 ≤ fuel; omega)
+        rw [hsh.bytes hi, hvj] at hs'
+        rw [hvj] at hb'
+        have hbj : bytesOf (h.setView i { h.view i with len := (h.view i).len - 1 }) (h.view j) = bytesOf h (h.view j) := rfl
+        rw [hbj] at hs' hb'
+        refine ⟨h', heq, ?_, hb'⟩
+        have := hsh.trans hs'
+        rw [trimEnd_last _ _ (by rw [hlen]; omega), if_pos hc, hlen]
+        exact this
+      · rw [if_neg hc]
+        refine ⟨h, rfl, ?_, rfl⟩
+        rw [trimEnd_last _ _ (by rw [hlen]; omega), if_neg hc]
+        exact Sets.self hI i hi
+
+theorem trimEndLoop_self (i : Nat) :
+    ∀ (fuel : Nat) (h : Heap), Inv h → i < h.views.length → (h.view i).len ≤ fuel →
+      ∃ h', trimEndLoop h i i fuel = .ok h' ∧ Sets h h' i [] := by
+  intro fuel
+  induction fuel with
+  | zero =>
+    intro h hI hi hf
+    refine ⟨h, rfl, ?_⟩
+    have := Sets.self hI i hi
+    rw [nil_of_len0 hI i hi (by omega)] at this
+    exact this
+  | succ fuel ih =>
+    intro h hI hi hf
+    rw [trimEndLoop_unfold]
+    by_cases h0 : (h.view i).len = 0
+    · rw [if_pos h0]
+      refine ⟨h, rfl, ?_⟩
+      have := Sets.self hI i hi
+      rw [nil_of_len0 hI i hi h0] at this
+      exact this
+    · rw [if_neg h0, read_last hI i hi (by omega), hI.contents i hi]
+      simp only []
+      have hlen := bytesOf_length hI _ (view_mem h i hi)
+      have hc : (bytesOf h (h.view i)).contains ((bytesOf h (h.view i))[(bytesOf h (h.view i)).length - 1]'(by rw [hlen]; omega)) = true := by
+        simp [List.getElem_mem]
+      rw [if_pos hc]
+      have hsh := shorten_spec hI i hi (by omega)
+      have hi1 : i < (h.setView i { h.view i with len := (h.view i).len - 1 }).views.length := by simpa using hi
+      have hvi : (h.setView i { h.view i with len := (h.view i).len - 1 }).view i = { h.view i with len := (h.view i).len - 1 } :=
+        Heap.view_setView_same _ _ _ hi
+      obtain ⟨h', heq, hs'⟩ := ih _ hsh.inv hi1 (by rw [hvi]; show (h.view i).len - 1 ≤ fuel; omega)
+      exact ⟨h', heq, hsh.trans hs'⟩
+
+theorem first_split (a : Bytes) (hpos : 0 < a.length) : a = a[0]'hpos :: a.drop 1 := by
+  cases a with
+  | nil => simp at hpos
+  | cons x t => rfl
+
+theorem trimBeginLoop_other (i j : Nat) (hij : i ≠ j) :
+    ∀ (fuel : Nat) (h : Heap), Inv h → i < h.views.length → j < h.views.length → (h.view i).len ≤ fuel →
+      ∃ h', trimBeginLoop h i j fuel = .ok h' ∧
+        Sets h h' i (Spec.trimBegin (bytesOf h (h.view i)) (bytesOf h (h.view j))) := by
+  intro fuel
+  induction fuel with
+  | zero =>
+    intro h hI hi hj hf
+    refine ⟨h, rfl, ?_⟩
+    rw [nil_of_len0 hI i hi (by omega)]
+    have := Sets.self hI i hi
+    rw [nil_of_len0 hI i hi (by omega)] at this
+    exact this
+  | succ fuel ih =>
+    intro h hI hi hj hf
+    rw [trimBeginLoop_unfold]
+    by_cases h0 : (h.view i).len = 0
+    · rw [if_pos h0]
+      refine ⟨h, rfl, ?_⟩
+      rw [nil_of_len0 hI i hi h0]
+      have := Sets.self hI i hi
+      rw [nil_of_len0 hI i hi h0] at this
+      exact this
+    · rw [if_neg h0, read_first hI i hi (by omega), hI.contents j hj]
+      simp only []
+      have hlen := bytesOf_length hI _ (view_mem h i hi)
+      have hsplit := first_split (bytesOf h (h.view i)) (by rw [hlen]; omega)
+      by_cases hc : (bytesOf h (h.view j)).contains ((bytesOf h (h.view i))[0]'(by rw [hlen]; omega)) = true
+      · rw [if_pos hc]
+        have hsh := behead_spec hI i hi (by omega)
+        have hi1 : i < (h.setView i { h.view i with off := (h.view i).off + 1, len := (h.view i).len - 1 }).views.length := by simpa using hi
+        have hj1 : j < (h.setView i { h.view i with off := (h.view i).off + 1, len := (h.view i).len - 1 }).views.length := by simpa using hj
+        have hvj : (h.setView i { h.view i with off := (h.view i).off + 1, len := (h.view i).len - 1 }).view j = h.view j :=
+          Heap.view_setView_ne _ _ _ _ hij
+        have hvi : (h.setView i { h.view i with off := (h.view i).off + 1, len := (h.view i).len - 1 }).view i =
+            { h.view i with off := (h.view i).off + 1, len := (h.view i).len - 1 } := Heap.view_setView_same _ _ _ hi
+        obtain ⟨h', heq, hs'⟩ := ih _ hsh.inv hi1 hj1 (by rw [hvi]; show (h.view i).len - 1 ≤ fuel; omega)
+        rw [hsh.bytes hi, hvj] at hs'
+        have hbj : bytesOf (h.setView i { h.view i with off := (h.view i).off + 1, len := (h.view i).len - 1 }) (h.view j) = bytesOf h (h.view j) := rfl
+        rw [hbj] at hs'
+        refine ⟨h', heq, ?_⟩
+        have := hsh.trans hs'
+        rw [trimBegin_first _ _ (by rw [hlen]; omega), if_pos hc]
+        exact this
+      · rw [if_neg hc]
+        refine ⟨h, rfl, ?_⟩
+        rw [trimBegin_first _ _ (by rw [hlen]; omega), if_neg hc]
+        exact Sets.self hI i hi
+
+theorem trimBeginLoop_self (i : Nat) :
+    ∀ (fuel : Nat) (h : Heap), Inv h → i < h.views.length → (h.view i).len ≤ fuel →
+      ∃ h', trimBeginLoop h i i fuel = .ok h' ∧ Sets h h' i [] := by
+  intro fuel
+  induction fuel with
+  | zero =>
+    intro h hI hi hf
+    refine ⟨h, rfl, ?_⟩
+    have := Sets.self hI i hi
+    rw [nil_of_len0 hI i hi (by omega)] at this
+    exact this
+  | succ fuel ih =>
+    intro h hI hi hf
+    rw [trimBeginLoop_unfold]
+    by_cases h0 : (h.view i).len = 0
+    · rw [if_pos h0]
+      refine ⟨h, rfl, ?_⟩
+      have := Sets.self hI i hi
+      rw [nil_of_len0 hI i hi h0] at this
+      exact this
+    · rw [if_neg h0, read_first hI i hi (by omega), hI.contents i hi]
+      simp only []
+      have hlen := bytesOf_length hI _ (view_mem h i hi)
+      have hc : (bytesOf h (h.view i)).contains ((bytesOf h (h.view i))[0]'(by rw [hlen]; omega)) = true := by
+        simp [List.getElem_mem]
+      rw [if_pos hc]
+      have hsh := behead_spec hI i hi (by omega)
+      have hi1 : i < (h.setView i { h.view i with off := (h.view i).off + 1, len := (h.view i).len - 1 }).views.length := by simpa using hi
+      have hvi : (h.setView i { h.view i with off := (h.view i).off + 1, len := (h.view i).len - 1 }).view i =
+          { h.view i with off := (h.view i).off + 1, len := (h.view i).len - 1 } := Heap.view_setView_same _ _ _ hi
+      obtain ⟨h', heq, hs'⟩ := ih _ hsh.inv hi1 (by rw [hvi]; show (h.view i).len - 1 ≤ fuel; omega)
+      exact ⟨h', heq, hsh.trans hs'⟩
+
+/-- the two phases of trim -/
+theorem trim_end_phase (hI : Inv h) (i j : Nat) (hi : i < h.views.length) (hj : j < h.views.length) (ae : Bool) :
+    ∃ h1, (if ae then trimEndLoop h i j (h.view i).len else .ok h) = .ok h1 ∧
+      Sets h h1 i (if ae then Spec.trimEnd (bytesOf h (h.view i)) (bytesOf h (h.view j)) else bytesOf h (h.view i)) ∧
+      (i ≠ j → bytesOf h1 (h1.view j) = bytesOf h (h.view j)) := by
+  cases ae with
+  | false => exact ⟨h, rfl, Sets.self hI i hi, fun _ => rfl⟩
+  | true =>
+    by_cases e : i = j
+    · subst e
+      obtain ⟨h1, heq, hs⟩ := trimEndLoop_self i _ h hI hi (Nat.le_refl _)
+      refine ⟨h1, heq, ?_, fun x => absurd rfl x⟩
+      simp only [if_true]
+      rw [trimEnd_self]; exact hs
+    · obtain ⟨h1, heq, hs, hb⟩ := trimEndLoop_other i j e _ h hI hi hj (Nat.le_refl _)
+      exact ⟨h1, heq, hs, fun _ => hb⟩
+
+
+theorem trim_begin_phase (hI : Inv h) (i j : Nat) (hi : i < h.views.length) (hj : j < h.views.length) (ab : Bool) :
+    ∃ h2, (if ab then trimBeginLoop h i j (h.view i).len else .ok h) = .ok h2 ∧
+      Sets h h2 i (if ab then (if i = j then [] else Spec.trimBegin (bytesOf h (h.view i)) (bytesOf h (h.view j)))
+                   else bytesOf h (h.view i)) := by
+  cases ab with
+  | false => exact ⟨h, rfl, Sets.self hI i hi⟩
+  | true =>
+    by_cases e : i = j
+    · subst e
+      obtain ⟨h2, heq, hs⟩ := trimBeginLoop_self i _ h hI hi (Nat.le_refl _)
+      refine ⟨h2, heq, ?_⟩
+      simp only [if_true]; exact hs
+    · obtain ⟨h2, heq, hs⟩ := trimBeginLoop_other i j e _ h hI hi hj (Nat.le_refl _)
+      refine ⟨h2, heq, ?_⟩
+      simp only [if_true, if_neg e]; exact hs
+
+theorem trim_unfold (h : Heap) (i j : Nat) (ab ae : Bool) :
+    trim h i j ab ae =
+      ((if ae then trimEndLoop h i j (h.view i).len else .ok h) >>= fun h1 =>
+        (if ab then trimBeginLoop h1 i j (h1.view i).len else .ok h1) >>= fun h2 =>
+          if (h2.view i).len = 0 then .ok (clear h2 i) else .ok h2) := by
+  unfold trim; cases ae <;> cases ab <;> rfl
+
+theorem stepOk_trim (hc : AllocOk c) (hI : Inv h) (i j : Nat) (ab ae : Bool) (hi : i < h.views.length) (hj : j < h.views.length)
+    (hs : Safe (abs h) (.trim i j ab ae)) : StepOk c h (.trim i j ab ae) := by
+  obtain ⟨h1, h1eq, h1s, h1b⟩ := trim_end_phase hI i j hi hj ae
+  have hi1 : i < h1.views.length := by rw [h1s.nviews]; exact hi
+  have hj1 : j < h1.views.length := by rw [h1s.nviews]; exact hj
+  obtain ⟨h2, h2eq, h2s⟩ := trim_begin_phase h1s.inv i j hi1 hj1 ab
+  rw [h1s.bytes hi] at h2s
+  have hi2 : i < h2.views.length := by rw [h2s.nviews]; exact hi1
+  -- the value the specification computes
+  have hval : (if ab then (if i = j then [] else
+        Spec.trimBegin (if ae then Spec.trimEnd (bytesOf h (h.view i)) (bytesOf h (h.view j)) else bytesOf h (h.view i)) (bytesOf h1 (h1.view j)))
+      else (if ae then Spec.trimEnd (bytesOf h (h.view i)) (bytesOf h (h.view j)) else bytesOf h (h.view i)))
+      = (if ab then Spec.trimBegin (if ae then Spec.trimEnd (Spec.get (abs h) i) (Spec.get (abs h) j) else Spec.get (abs h) i) (Spec.get (abs h) j)
+         else (if ae then Spec.trimEnd (Spec.get (abs h) i) (Spec.get (abs h) j) else Spec.get (abs h) i)) := by
+    rw [get_abs h i hi, get_abs h j hj]
+    by_cases e : i = j
+    · subst e
+      cases ab <;> cases ae <;> simp [trimEnd_self, trimBegin_self] <;> rfl
+    · rw [h1b e]
+      cases ab <;> simp [e]
+  rw [hval] at h2s
+  have hsets12 := h1s.trans h2s
+  have hstepeq : ∀ hf, (if (h2.view i).len = 0 then Out.ok (clear h2 i) else Out.ok h2) = Out.ok hf →
+      step c h (.trim i j ab ae) = .ok (hf, .unit) := by
+    intro hf hfe
+    show unitOut (trim h i j ab ae) = _
+    rw [trim_unfold, h1eq, Out.ok_bind, h2eq, Out.ok_bind, hfe]; rfl
+  by_cases h0 : (h2.view i).len = 0
+  · obtain ⟨cI, cn, cabs, _⟩ := clear_spec h2s.inv i hi2
+    have hx := hsets12.bytes hi
+    have hnil := nil_of_len0 h2s.inv i hi2 h0
+    rw [hnil] at hx
+    refine sets_to_step (i := i) (x := []) ⟨cI, by rw [cn, hsets12.nviews], ?_⟩ ?_ rfl (hstepeq _ (by rw [if_pos h0]))
+    · rw [cabs, hsets12.abs, List.set_set]
+    · show (abs h).set i _ = _
+      rw [← hx]
+  · exact sets_to_step hsets12 rfl rfl (hstepeq _ (by rw [if_neg h0]))
 
 end SquidModel.SBuf
